@@ -23,7 +23,7 @@ ASSUMPTIONS = ['refpgp.sig (independent 5.2.4 implementation, self-tested on 62 
 
 SIG_MUTS = ['type', 'pkalg', 'halg', 'hashed-bit', 'hashed-len', 'sub-delete', 'sub-dup', 'sub-swap', 'sub-move-unhashed',
             'sub-value', 'sub-add', 'sub-unknown-bit', 'mpi-bit', 'mpi-plus1', 'mpi-zero', 'mpi-swap', 'mpi-trunc', 'mpi-high', 'version']
-SUBJ_MUTS = ['none-with-subject', 'doc-bit', 'doc-insert', 'doc-delete', 'doc-swap', 'text-eol', 'uid-char', 'uid-append', 'uid-as-ua', 'key-time', 'key-material',
+SUBJ_MUTS = ['none-with-subject', 'ua-reencode', 'doc-bit', 'doc-insert', 'doc-delete', 'doc-swap', 'text-eol', 'uid-char', 'uid-append', 'uid-as-ua', 'key-time', 'key-material',
              'key-alg', 'key-other', 'subkey-other', 'subkey-swap-roles', 'subkey-material']
 KEY_MUTS = ['key-otherkey-reissue', 'key-bit-reissue', 'key-primary-for-subkey', 'key-encsubkey-reissue']
 ALL_MUTS = SIG_MUTS + SUBJ_MUTS + KEY_MUTS
@@ -32,7 +32,7 @@ APPLICABLE = {
     'doc': SIG_MUTS + ['doc-bit', 'doc-insert', 'doc-delete', 'doc-swap'] + KEY_MUTS,
     'text': SIG_MUTS + ['doc-bit', 'doc-insert', 'doc-delete', 'doc-swap', 'text-eol', 'text-eol'] + KEY_MUTS,
     'none': SIG_MUTS + KEY_MUTS + ['none-with-subject', 'none-with-subject'],
-    'cert': SIG_MUTS + ['uid-char', 'uid-append', 'uid-as-ua'] + _KEYSUBJ + KEY_MUTS,
+    'cert': SIG_MUTS + ['uid-char', 'uid-append', 'uid-as-ua', 'ua-reencode'] + _KEYSUBJ + KEY_MUTS,
     'key': SIG_MUTS + _KEYSUBJ + KEY_MUTS,
     'subkey': SIG_MUTS + _KEYSUBJ + ['subkey-other', 'subkey-swap-roles', 'subkey-material'] + KEY_MUTS,
 }
@@ -204,6 +204,27 @@ def mutate(t, mut, a, b):
             m.kind = 'doc'
             m.doc = [b'I owe Mallory 1000 EUR', b'', b'\x00', b'any other document\n' * 3][a % 4] if a % 4 != 1 else b'x'
             return m, mut, None
+        if mut == 'ua-reencode':
+            # the same photo in another encoding of the attribute packet: other length form, other reserved octets, other header length
+            if t.kind != 'cert' or t.uid_kind != 'ua':
+                return None
+            n, used = wire.sub_len_decode(t.uid_data, 0)
+            rest = bytearray(t.uid_data[used:])
+            v = a % 4
+            if v == 0:
+                m.uid_data = wire.sub_len_encode(n, 5) + bytes(rest)
+            elif v == 1 and len(rest) > 10:
+                rest[8 + b % 8] ^= 0x20                    # one of the 12 reserved octets of the image header
+                m.uid_data = t.uid_data[:used] + bytes(rest)
+            elif v == 2 and len(rest) > 3:
+                rest[1] ^= 0x01                            # image header length field (little endian, 0x10 0x00)
+                m.uid_data = t.uid_data[:used] + bytes(rest)
+            else:
+                rest[3] ^= 0x02                            # header version
+                m.uid_data = t.uid_data[:used] + bytes(rest)
+            if m.uid_data == t.uid_data:
+                return None
+            return m, 'ua-reencode/%d' % v, None
         if mut.startswith('doc-') or mut == 'text-eol':
             if t.kind not in ('doc', 'text'):
                 return None
